@@ -249,3 +249,18 @@ func init() {
 	externals["sort.Slice"] = extSortSlice
 	externals["sort.SliceStable"] = extSortSlice
 }
+
+// package flag: registration returns a fresh cell holding the default value;
+// parsing is not modelled (the CLI harness sets the cells itself).
+func init() {
+	cell := func(fr *frame, args []value) value {
+		v := args[1]
+		return &v
+	}
+	externals["flag.Int"] = cell
+	externals["flag.Bool"] = cell
+	externals["flag.String"] = cell
+	externals["flag.Var"] = extNop
+	externals["flag.Parse"] = extNop
+	externals["flag.Args"] = func(fr *frame, args []value) value { return []value(nil) }
+}
